@@ -131,7 +131,15 @@ func concLRU(args []string) int {
 			}(t)
 		}
 		atomic.StoreInt32(&start, 1)
-		wg.Wait()
+		finished := make(chan struct{})
+		go func() { wg.Wait(); close(finished) }()
+		select {
+		case <-finished:
+		case <-time.After(60 * time.Second): // a handful of cache operations that never return: reported, not waited for
+			w.close()
+			fmt.Printf("{\"histories\": %d, \"events\": %d, \"hang\": true}\n", h-1, w.n)
+			os.Exit(0)
+		}
 		// sequential epilogue (one more thread, nothing overlaps): whatever the concurrent phase left behind must still
 		// behave like the cache the specification reached - sizes, every key, evictions forced by fresh keys, every key again
 		epi := []planned{{"stats", 0, 0}, {"size", 0, 0}}
@@ -285,7 +293,19 @@ func concSearch(args []string) int {
 			}(g, seed)
 		}
 		close(start)
-		wg.Wait()
+		// a watchdog: operations that wait for each other for ever (lock-order or re-entrant locking slips) are an
+		// observation, not an infrastructure failure - a round takes well under a second
+		finished := make(chan struct{})
+		go func() { wg.Wait(); close(finished) }()
+		select {
+		case <-finished:
+		case <-time.After(90 * time.Second):
+			tr++
+			w.emit(&csEv{Op: "chang", Tr: tr, Entry: "concurrent searches, invalidations, sweeps and statistics reads did not finish within 90 s"})
+			w.close()
+			fmt.Printf("{\"rounds\": %d, \"events\": %d, \"hang\": true}\n", round, w.n)
+			os.Exit(0)
+		}
 		tr++
 		for _, e := range evs {
 			e.Tr = tr
